@@ -10,6 +10,7 @@ from ..rules import defs, exa, fmt, lint, nul, shape, match
 from . import common
 
 EXPLANATION = (
+  "(KEEP-text) the handler that turns a run of cue text into Text nodes has no exit that depends on the content of the text (strip / isspace / a pattern) and stores the text itself: white space between two tags and line breaks stay in the document; "
   "Decides, for every WebVTT input, these clauses: (EXA) cue and inline timestamps reach the model as exact rationals; (DEF) no "
   "reader/tokenizer state is read before assignment on any path (cue without text); (LINT-d) the tokenizer's state enum has no two "
   "members with one value that are both dispatched on (an aliased state silently routes annotation character references through the "
@@ -464,6 +465,7 @@ def check_level_owners(ctx):
 
 
 def run(ctx):
+  ctx.floor("KEEP-text", "cue text handlers", common.check_text_handlers(ctx, ["ttconv.vtt.reader:_TextCueParser._handle_string"]), 1)
   from ..rules import probes as _probes
   ctx.floor("FIN-tokens", "probe texts decided", _probes.check_cue_tokens(ctx), 12)
   common.check_shared_helpers(ctx, text=True)
